@@ -144,11 +144,11 @@ theorem seqAfterUpdate_rk {s s' : St} {m : UpdMsg} {b : Bool} {ra : Nat}
   · cases e
   · rename_i prop hg
     dsimp only at e
-    have g : Good s (setSeq s { prop with dishonor := prop.dishonor - min s.p.dishonorSU prop.dishonor }) :=
-      Good.setSeq (q := { prop with dishonor := prop.dishonor - min s.p.dishonorSU prop.dishonor }) (q0 := prop)
+    have g : Good s (setSeq s { prop with dishonor := prop.dishonor - min s.sqp.dishonorSU prop.dishonor }) :=
+      Good.setSeq (q := { prop with dishonor := prop.dishonor - min s.sqp.dishonorSU prop.dishonor }) (q0 := prop)
         (by show getSeq s prop.addr = some prop; rw [getSeq_addr hg]; exact hg) rfl
     split at e
-    · exact (g.rk ra).trans (onProposerLastBlock_rk (q := { prop with dishonor := prop.dishonor - min s.p.dishonorSU prop.dishonor })
+    · exact (g.rk ra).trans (onProposerLastBlock_rk (q := { prop with dishonor := prop.dishonor - min s.sqp.dishonorSU prop.dishonor })
         (hne prop hg) e)
     · injection e with e; subst e; exact g.rk ra
 
@@ -283,6 +283,14 @@ theorem apply_rk {s s' : St} {o : Op} {ra : Nat} (hi : Inv s) (e : apply s o = .
   | update m => exact updateState_rk hi (fun hc => hq hc) e
   | fraud au ra' hh rev p rw => exact fraud_rk (fun hc => hq hc) e
   | obsolete au vs => exact absurd trivial hq
+  | punish au a rw => exact (punish_good (punishProposal_ok e).2).rk ra
+  | transferOwner sg ra' no =>
+    obtain ⟨r, hg, _, _, _, rfl⟩ := transferOwner_ok e
+    exact (Good.setRa rfl rfl rfl (r0 := r) (r1 := { r with owner := no })
+      (by show getRa s r.id = some r; rw [getRa_id hg]; exact hg) rfl (fun x => x.of_fields rfl rfl rfl)).rk ra
+  | setSeqParams au sp =>
+    obtain ⟨_, hnp, _, rfl⟩ := setSeqParams_ok e
+    exact RK.of_getRa rfl
   | begin_ dt =>
     simp only [apply] at e; injection e with e; subst e
     exact (beginBlock_good hi.cust.nodup).rk ra
